@@ -60,6 +60,8 @@ def sentinel_model_jobs(thorough):
                      ('Sentinel_MC_neg_noclose.cfg', 'NoTrafficToWrongRole'),
                      ('Sentinel_MC_neg_absorb.cfg', 'SubscribedOrRefreshing'),
                      ('Sentinel_MC_neg_inline.cfg', 'RefreshNotStuck'),
+                     ('Sentinel_MC_neg_prefix.cfg', 'SwapOnlyReported'),     # master-set name compared by prefix
+                     ('Sentinel_MC_neg_anyset.cfg', 'SwapOnlyReported'),     # master-set name not compared at all
                      ('Sentinel_MC_live_neg_ignore.cfg', 'FollowsSwitch'),
                      ('Sentinel_MC_live_neg_absorb.cfg', 'FollowsSwitch')]:
         jobs.append(dict(module='SentinelMC', cfg=cfg, expect=inv, kw=w))
@@ -67,7 +69,7 @@ def sentinel_model_jobs(thorough):
 
 
 # ------------------------------------------------------------------------------------------------- scenarios
-def _pick_scenarios(cases, n, seed):
+def _pick_scenarios(cases, n, seed, shape_of=None, per_shape=2):
     """Deduplicate the printed behaviours and pick n of them, preferring many kinds of steps and anchored steps."""
     uniq = {}
     for c in cases:
@@ -80,10 +82,10 @@ def _pick_scenarios(cases, n, seed):
         h = hashlib.sha1(('%d|%s' % (seed, k)).encode()).hexdigest()
         return (-(len(ops) + len(ats)), h)
 
-    out, per_shape = [], collections.Counter()
+    out, per_shape, per_shape_max = [], collections.Counter(), per_shape
     for k, c in sorted(uniq.items(), key=score):
-        shape = tuple(sorted(s['op'] for s in c['steps']))
-        if per_shape[shape] >= 2:
+        shape = shape_of(c) if shape_of else tuple(sorted(s['op'] for s in c['steps']))
+        if per_shape[shape] >= per_shape_max:
             continue
         per_shape[shape] += 1
         out.append(c)
@@ -92,15 +94,28 @@ def _pick_scenarios(cases, n, seed):
     return out, len(uniq)
 
 
+def _shape_foreign(c):
+    """behaviours about other master sets: one per (channel, master-set name) of the foreign events they contain"""
+    return tuple(sorted((s['y'], ''.join(s.get('set') or [])) for s in c['steps'] if s['op'] == 'pub' and s.get('set')))
+
+
 def gen_scenarios(ctx, thorough, outpath):
     n = 40 if thorough else 10
+    nf = 12 if thorough else 4
     jobs = [dict(module='SentinelGen', cfg='Sentinel_Gen_%s.cfg' % m,
                  kw=dict(simulate=60 if thorough else 15, depth=110, seed=int(ctx.seed) * 31 + i, collect_cases=True, timeout=600))
             for i, m in enumerate('mrb')]
+    # round 2: events of other master sets monitored by the same sentinels (GenSpecF / GenDoneForeign)
+    jobs += [dict(module='SentinelGen', cfg='Sentinel_Gen_f%s.cfg' % m, foreign=True,
+                  kw=dict(simulate=40 if thorough else 12, depth=110, seed=int(ctx.seed) * 37 + 5 + i, collect_cases=True, timeout=600))
+             for i, m in enumerate('mb')]
     results = run_tlc_many(ctx, jobs)
     scen, behaviours = [], 0
-    for r in results:
-        picked, nu = _pick_scenarios(r.cases, n, int(ctx.seed))
+    for j, r in zip(jobs, results):
+        if j.get('foreign'):
+            picked, nu = _pick_scenarios(r.cases, nf, int(ctx.seed), shape_of=_shape_foreign, per_shape=1)
+        else:
+            picked, nu = _pick_scenarios(r.cases, n, int(ctx.seed))
         behaviours += nu
         scen += picked
     vlib.write_ndjson(outpath, scen)
@@ -247,6 +262,8 @@ def routing_model_jobs():
                      ('Standalone_neg_range.cfg', 'OutOfRangeFallsBackToPrimary'), ('Standalone_neg_norep.cfg', 'NoReplicaMeansPrimary')]:
         jobs.append(dict(module='Standalone', cfg=cfg, expect=inv, kw=w))
     jobs.append(dict(module='StandaloneRedirect', cfg='StandaloneRedirect_neg.cfg', expect='RedirectFollowed', kw=w))
+    # round 2: the lifetime recovery of the sentinel client picks the connection again for the re-sent rest of a batch
+    jobs.append(dict(module='SentinelRoute', cfg='SentinelRoute_neg_repick.cfg', expect='SentinelReplicaOnlyWhenOptedIn', kw=w))
     return jobs
 
 
@@ -271,5 +288,6 @@ def drive_routing(ctx, thorough):
             ctx.exhaustive = (rep.get('evaluations') == len(cases)) and not rep.get('inconclusive')
             ctx.extra['tlc_generated_cases'] = dict(standalone_route=len(results[0].cases), sentinel_route=len(results[1].cases),
                                                    redirect_behaviours=len(results[2].cases))
+            ctx.extra['sentinel_lifetime_cases'] = rep.get('extra') or {}
     finally:
         shutil.rmtree(d, ignore_errors=True)
